@@ -10,7 +10,7 @@ from vlib import ToolError
 
 # Until the lead has merged the dispatch lines / trace-spec disjuncts (docs/NOTES_vmcontract.md) the trace specification is
 # the private copy regenerated from spec/vm by work/vmcontract/sync.py; afterwards: SPEC_TR = "vm/FuelVM_Trace.tla".
-SPEC_TR = "/verif/work/vmcontract/spec/FuelVM_Trace.tla"
+SPEC_TR = "vm/FuelVM_Trace.tla"
 SPEC_SR = "vm/StorageRead_MC.tla"
 BIN = "vh_vmcontract"
 
